@@ -20,6 +20,16 @@ for pid in sorted(mi.CLAIMS):
         "level_note": c["note"],
         "technique": c["technique"],
     })
+# the evidence files carry the registry's level: it must be the level claimed here
+import re as _re
+_reg = open(os.path.join(ROOT, "contracts", "registry.py")).read()
+for pid in sorted(mi.CLAIMS):
+    m_ = _re.search(r'"%s": \{(.*?)\n    \},' % pid, _reg, flags=_re.S)
+    lvl = _re.search(r'"level": "(\w+)"', m_.group(1)).group(1) if m_ else None
+    if lvl != mi.CLAIMS[pid]["category"]:
+        sys.exit("level mismatch for %s: registry %r, manifest_info %r" % (pid, lvl, mi.CLAIMS[pid]["category"]))
+    if lvl == "other" and '"explanation"' not in m_.group(1):
+        sys.exit("level 'other' for %s needs an explanation in the registry" % pid)
 na = dict(mi.NOT_APPLICABLE)
 for line in open(os.path.join(ROOT, "properties.jsonl")):
     pid = json.loads(line)["id"]
